@@ -73,13 +73,22 @@ impl MerkleTree {
         }
     }
 
+    /// Size in bytes of every hash value in the tree (leaves, inner nodes, path elements and
+    /// the root). The IETF profile uses `SHA-512[0:32]` at *every* node, not only for the root.
+    fn output_len(&self) -> usize {
+        match self.version {
+            RfcDraft13 => 32,
+            Google => self.algorithm.output_len(),
+        }
+    }
+
     pub fn push_leaf(&mut self, data: &[u8]) {
         let hash = self.hash_leaf(data);
         self.levels[0].push(hash);
     }
 
     pub fn get_paths(&self, mut index: usize) -> Vec<u8> {
-        let mut paths = Vec::with_capacity(self.levels.len() * self.algorithm.output_len());
+        let mut paths = Vec::with_capacity(self.levels.len() * self.output_len());
         let mut level = 0;
 
         while !self.levels[level].is_empty() {
@@ -114,7 +123,8 @@ impl MerkleTree {
             }
 
             if node_count % 2 != 0 {
-                self.levels[level - 1].push(vec![0; self.algorithm.output_len()]);
+                let padding = vec![0; self.output_len()];
+                self.levels[level - 1].push(padding);
                 node_count += 1;
             }
 
@@ -158,15 +168,15 @@ impl MerkleTree {
         for data in to_hash {
             ctx.update(data);
         }
-        Data::from(ctx.finish().as_ref())
+        Data::from(&ctx.finish().as_ref()[..self.output_len()])
     }
 
     pub fn root_from_paths(&self, mut index: usize, data: &[u8], paths: &[u8]) -> Hash {
         let mut hash = self.hash_leaf(data);
 
-        assert_eq!(paths.len() % self.algorithm.output_len(), 0);
+        assert_eq!(paths.len() % self.output_len(), 0);
 
-        for path in paths.chunks(self.algorithm.output_len()) {
+        for path in paths.chunks(self.output_len()) {
             let mut ctx = digest::Context::new(self.algorithm);
             ctx.update(TREE_NODE_TWEAK);
 
@@ -180,7 +190,7 @@ impl MerkleTree {
                 ctx.update(&hash);
             }
 
-            hash = Hash::from(ctx.finish().as_ref());
+            hash = Hash::from(&ctx.finish().as_ref()[..self.output_len()]);
             index >>= 1;
         }
 
